@@ -80,6 +80,9 @@ func runC07(c *Ctx) {
 	c07HeaderLists(c)
 	c.Rule("C07.O12", "E5", "a pooled nbhttp object (request, response, body reader) is recycled only by the library's own release path: no sync.Pool.Put of it is reachable from an exported method of its type, which the application may call while the library still holds the object and will release it again", 3)
 	c07PoolRecyclers(c)
+	c.Rule("C07.O13", "E5", "multi-line fields are decided over all their lines: the request's close decision does not read Connection through Header.Get (first line only)", 1)
+	c.Rule("C07.O14", "E5", "header and trailer names are canonicalised by net/http's own function: every non-empty value stored into Parser.headerKey is the direct result of http.CanonicalHeaderKey (a private fast path with a different word rule gives different map keys)", 4)
+	c07NamesAndLines(c)
 	c.Rule("C07.O4", "E8", "request.Close: major<1 -> true; 1.0 -> hasClose || !keepAlive; else hasClose, with hasClose / keepAlive set by the Connection values \"close\" / \"keep-alive\"", 1)
 
 	// ------------------------------------------------------------------ O1
@@ -673,6 +676,35 @@ func c07PoolRecyclers(c *Ctx) {
 				}
 			}
 			c.Cond(bad == "", "C07.O12", key, c.Pos(cs.In), "not reachable from an exported method of the pooled type", bad)
+		}
+	}
+}
+
+// c07NamesAndLines: O13, O14.
+func c07NamesAndLines(c *Ctx) {
+	if oc := c.Fn("C07.O13", "(*nbhttp.ServerProcessor).OnComplete"); oc != nil {
+		bad := ""
+		for _, cs := range c.P.Calls(oc, func(name string, _ ir.CallSite) bool { return strings.HasSuffix(name, "Header).Get") }) {
+			if k, ok := constString(cs.Common.Args[len(cs.Common.Args)-1]); ok && strings.EqualFold(k, "Connection") {
+				bad = "the close decision reads Connection with Header.Get at " + c.Pos(cs.In) + ", which returns the first field line only: a close (or keep-alive) option on a later Connection line is ignored, unlike net/http"
+			}
+		}
+		c.Cond(bad == "", "C07.O13", fnKey(c.P, oc, "all Connection lines"), c.FnPos(oc), "Connection is not read through Header.Get", bad)
+	}
+	if parse := c.Fn("C07.O14", "(*nbhttp.Parser).Parse"); parse != nil {
+		n := 0
+		for _, f := range ir.WithClosures(parse) {
+			for _, st := range c.P.StoresTo(f, "nbhttp.Parser.headerKey") {
+				if s, ok := constString(st.Val); ok && s == "" {
+					continue
+				}
+				n++
+				key := fmt.Sprintf("%s: headerKey store#%d", c.P.FuncName(parse), n)
+				call, isCall := ir.Resolve(st.Val).(*ssa.Call)
+				ok := isCall && (c.P.CalleeName(&call.Call) == "net/http.CanonicalHeaderKey" || c.P.CalleeName(&call.Call) == "net/textproto.CanonicalMIMEHeaderKey")
+				c.Cond(ok, "C07.O14", key, c.Pos(st), "http.CanonicalHeaderKey(...)",
+					"the header name stored at "+c.Pos(st)+" is "+c.P.Desc(ir.Resolve(st.Val))+", not the direct result of http.CanonicalHeaderKey: names that net/http canonicalises differently (a capital after '_', '.', ...) end up under another map key, and a declared trailer of that name is never matched")
+			}
 		}
 	}
 }
